@@ -4,12 +4,13 @@ copy of the file that defines the function and run with the repository's own too
 import json
 import os
 import re
+import signal
 import subprocess
 
 from . import common as C
 
 
-def run_witness(tag, target_rel, witness_src, test_filter="verif_witness", replay_input=None, timeout=1500, mode="search"):
+def run_witness(tag, target_rel, witness_src, test_filter="verif_witness", replay_input=None, timeout=600, mode="search"):
     """returns (witnesses:list[dict], log_tail:str, ok:bool)"""
     d = C.repo_copy(tag)
     p = os.path.join(d, target_rel)
@@ -24,12 +25,21 @@ def run_witness(tag, target_rel, witness_src, test_filter="verif_witness", repla
     if replay_input is not None:
         env["VERIF_REPLAY_INPUT"] = json.dumps(replay_input)
     cmd = ["cargo", "test", "--offline", "--lib", marker.replace("mod ", "") + "::", "--", "--nocapture", "--test-threads", "1"]
+    # own process group: a hang in the code under test (e.g. a walk that stops advancing) must not outlive the check
+    pr = subprocess.Popen(cmd, cwd=d, env=env, stdout=subprocess.PIPE, stderr=subprocess.PIPE, text=True, start_new_session=True)
+    timed_out = False
     try:
-        pr = subprocess.run(cmd, cwd=d, env=env, capture_output=True, text=True, timeout=timeout)
-        out = pr.stdout + "\n" + pr.stderr
-    except subprocess.TimeoutExpired as e:
-        out = "TIMEOUT"
-        return [], out, False
+        so, se = pr.communicate(timeout=timeout)
+    except subprocess.TimeoutExpired:
+        timed_out = True
+        try:
+            os.killpg(pr.pid, signal.SIGKILL)
+        except OSError:
+            pass
+        so, se = pr.communicate()
+    out = (so or "") + "\n" + (se or "")
+    if timed_out:
+        out += "\nWITNESS-SEARCH-TIMEOUT after %ds (the code under test may not terminate on some input)\n" % timeout
     wits = []
     for ln in out.split("\n"):
         m = re.search(r"WITNESS (\{.*\})\s*$", ln)
@@ -39,7 +49,7 @@ def run_witness(tag, target_rel, witness_src, test_filter="verif_witness", repla
             except Exception:
                 pass
     ran = re.search(r"test result: (ok|FAILED)\. (\d+) passed; (\d+) failed", out)
-    ok = ran is not None
+    ok = ran is not None and not timed_out
     stats = {}
     m = re.search(r"WSTATS (\{.*\})", out)
     if m:
